@@ -22,7 +22,11 @@ def _crystals():
     s["fcc"] = (lambda: crystal.Crystal.FCC(1.), 0, ())
     s["bcc"] = (lambda: crystal.Crystal.BCC(1.), 0, ())
     s["hcp"] = (lambda: crystal.Crystal.HCP(1.), 0, ())
-    s["chain2"] = (lambda: crystal.Crystal(np.diag([1., 3., 3.2]), [_a(0, 0, 0), _a(.5, 0, 0)]), 0, ())
+    # several mobile sites per cell, jumps between DIFFERENT basis indices (diamond, cubic cell with a two-atom basis)
+    s["diamond"] = (lambda: crystal.Crystal(0.5 * _a([0, 1, 1], [1, 0, 1], [1, 1, 0]).T, [_a(0, 0, 0), _a(.25, .25, .25)]), 0, ())
+    s["cub2"] = (lambda: crystal.Crystal(np.eye(3), [_a(0, 0, 0), _a(.5, .5, .3)]), 0, ())
+    # (.4, not .5: Crystal() would reduce a half-translation to a one-site cell)
+    s["chain2"] = (lambda: crystal.Crystal(np.diag([1., 3., 3.2]), [_a(0, 0, 0), _a(.4, 0, 0)]), 0, ())
     # two chemistries, chem 1 spectator (B2-like, and a chain decorated with spectators)
     s["b2spec"] = (lambda: crystal.Crystal(np.eye(3), [[_a(0, 0, 0)], [_a(.5, .5, .5)]]), 0, (1,))
     s["chainspec"] = (lambda: crystal.Crystal(np.diag([1., 3., 3.2]), [[_a(0, 0, 0)], [_a(.5, .2, 0)]]), 0, (1,))
@@ -40,8 +44,10 @@ SETUPS = {
     "sc": [(1.01, 2, 1.01), (1.5, 3, 1.01)],
     "fcc": [(0.8, 3, 0.8)],
     "bcc": [(0.9, 2, 0.9), (1.01, 3, 0.9)],
-    "hcp": [(1.01, 3, 1.01)],
-    "chain2": [(0.6, 2, 0.6), (1.1, 3, 0.6)],
+    "hcp": [(1.01, 3, 1.01), (1.01, 2, 1.01)],
+    "diamond": [(0.45, 2, 0.45), (0.72, 3, 0.45)],
+    "cub2": [(0.8, 2, 0.8), (1.01, 3, 0.8)],
+    "chain2": [(0.65, 2, 0.65), (1.1, 3, 0.65)],
     "b2spec": [(1.01, 3, 1.01)],
     "chainspec": [(1.1, 3, 1.1)],
     "chain2chem": [(1.1, 3, 1.1)],
@@ -53,7 +59,9 @@ SUPERS = {
     "sc": [(2, 2, 2), (3, 3, 1), (3, 2, 2), (2, 2, 1), (3, 3, 3), [[2, 1, 0], [0, 2, 1], [0, 0, 2]], (1, 1, 1)],
     "fcc": [(2, 2, 2), [[-1, 1, 1], [1, -1, 1], [1, 1, -1]], (3, 2, 2), (3, 3, 3), (1, 1, 1), (2, 1, 1)],
     "bcc": [(2, 2, 2), [[0, 1, 1], [1, 0, 1], [1, 1, 0]], (3, 2, 2), (3, 3, 3)],
-    "hcp": [(2, 2, 1), (2, 2, 2), (3, 3, 2), (1, 1, 1)],
+    "hcp": [(2, 2, 1), (2, 2, 2), (3, 3, 2), (1, 1, 1), (3, 3, 1), (3, 2, 2)],
+    "diamond": [(2, 2, 2), (2, 2, 1), [[-1, 1, 1], [1, -1, 1], [1, 1, -1]], (3, 2, 2), (3, 3, 3)],
+    "cub2": [(2, 2, 2), (2, 2, 1), (3, 2, 2), (3, 3, 2), [[2, 1, 0], [0, 2, 1], [0, 0, 2]]],
     "chain2": [(3, 1, 1), (4, 1, 1), (5, 1, 1), (2, 1, 1)],
     "b2spec": [(2, 2, 2), (2, 2, 1), (3, 2, 2)],
     "chainspec": [(4, 1, 1), (6, 1, 1), (3, 1, 1)],
